@@ -152,7 +152,9 @@ func (d *Directive) ResolveArgs(obj string, next int) string {
 	args := []string{"ctx", obj, fmt.Sprintf("directive%d", next)}
 
 	for _, arg := range d.Args {
-		dArg := arg.VarName
+		// the local holding the unmarshalled argument (directives.gotpl); prefixed so that an argument named like a
+		// predeclared type (string, int, …) cannot shadow the types used in the same closure
+		dArg := "dirArg_" + arg.VarName
 		if arg.Value == nil && arg.Default == nil {
 			dArg = "nil"
 		}
